@@ -72,28 +72,28 @@ theorem opsx_Keeper_BeginForceUnlock_pinned : Gen.LockupOps.opsx_Keeper_BeginFor
 
 /-- B — `Keeper.beginUnlock`: `Lockup.beginUnlockInternal` / `Lockup.beginUnlockCore` (already unlocking, `IsAllLTE`, the split for a partial amount, index entries moved, end time) -/
 theorem opsx_Keeper_beginUnlock_pinned : Gen.LockupOps.opsx_Keeper_beginUnlock =
-    ["IsAllLTE(v3,v2.Coins)", "!", "if", "return(0,error)", "end", "IsUnlocking(v2)", "if", "return(0,error)", "end",
-     "len(v3)", "!=(_,0)", "Equal(v3,v2.Coins)", "!", "&&(_,_)", "if", "SplitLock(v0,v1,v2,v3,false)", "=(v2,v4)",
-     "end", "deleteLockRefs(v0,v1,types.KeyPrefixNotUnlocking,v2)", "BlockTime(v1)",
+    ["IsAllLTE(v3,v2.Coins)", "!(_)", "if", "return(0,error)", "end", "IsUnlocking(v2)", "if", "return(0,error)",
+     "end", "len(v3)", "!=(_,0)", "Equal(v3,v2.Coins)", "!(_)", "&&(_,_)", "if", "SplitLock(v0,v1,v2,v3,false)",
+     "=(v2,v4)", "end", "deleteLockRefs(v0,v1,types.KeyPrefixNotUnlocking,v2)", "BlockTime(v1)",
      "Add(v1.BlockTime(),v2.Duration)", "=(v2.EndTime,_)", "setLock(v0,v1,v2)", "addLockRefs(v0,v1,v2)", "if",
      "OwnerAddress(v2)", "OnStartUnlock(v0.hooks,v1,v2.OwnerAddress(),v2.ID,v2.Coins,v2.Duration,v2.EndTime)", "end",
      "return(v2.ID,nil)"] := by decide
 
 /-- B — `Keeper.UnlockMaturedLock`: `Lockup.unlockMaturedLock` (`curTime.Before(lock.EndTime)` ⇒ error) -/
 theorem opsx_Keeper_UnlockMaturedLock_pinned : Gen.LockupOps.opsx_Keeper_UnlockMaturedLock =
-    ["GetLockByID(v0,v1,v2)", "BlockTime(v1)", "=(v5,v1.BlockTime())", "IsUnlocking(v3)", "!", "if", "return(error)",
-     "end", "Before(v5,v3.EndTime)", "if", "return(error)", "end", "unlockMaturedLockInternalLogic(v0,v1,v3)",
-     "return(_)"] := by decide
+    ["GetLockByID(v0,v1,v2)", "BlockTime(v1)", "=(v5,v1.BlockTime())", "IsUnlocking(v3)", "!(v3.IsUnlocking())",
+     "if", "return(error)", "end", "Before(v5,v3.EndTime)", "if", "return(error)", "end",
+     "unlockMaturedLockInternalLogic(v0,v1,v3)", "return(_)"] := by decide
 
 /-- B — `Keeper.PartialForceUnlock`: `Lockup.msgForceUnlock` -/
 theorem opsx_Keeper_PartialForceUnlock_pinned : Gen.LockupOps.opsx_Keeper_PartialForceUnlock =
-    ["IsAllLTE(v3,v2.Coins)", "!", "if", "return(error)", "end", "len(v3)", "!=(_,0)", "Equal(v3,v2.Coins)", "!",
-     "&&(_,_)", "if", "SplitLock(v0,v1,v2,v3,true)", "=(v2,v4)", "end", "ForceUnlock(v0,v1,v2)", "return(_)"] := by decide
+    ["IsAllLTE(v3,v2.Coins)", "!(_)", "if", "return(error)", "end", "len(v3)", "!=(_,0)", "Equal(v3,v2.Coins)",
+     "!(_)", "&&(_,_)", "if", "SplitLock(v0,v1,v2,v3,true)", "=(v2,v4)", "end", "ForceUnlock(v0,v1,v2)", "return(_)"] := by decide
 
 /-- B — `Keeper.ForceUnlock`: `Lockup.forceUnlock` -/
 theorem opsx_Keeper_ForceUnlock_pinned : Gen.LockupOps.opsx_Keeper_ForceUnlock =
-    ["GetSyntheticLockupByUnderlyingLockId(v0,v1,v2.ID)", "IsNil(v3)", "!", "if",
-     "DeleteSyntheticLockup(v0,v1,v2.ID,v3.SynthDenom)", "end", "IsUnlocking(v2)", "!", "if",
+    ["GetSyntheticLockupByUnderlyingLockId(v0,v1,v2.ID)", "IsNil(v3)", "!(v3.IsNil())", "if",
+     "DeleteSyntheticLockup(v0,v1,v2.ID,v3.SynthDenom)", "end", "IsUnlocking(v2)", "!(v2.IsUnlocking())", "if",
      "BeginUnlock(v0,v1,v2.ID,nil)", "end", "GetLockByID(v0,v1,v2.ID)", "unlockMaturedLockInternalLogic(v0,v1,v5)",
      "return(_)"] := by decide
 
@@ -101,10 +101,10 @@ theorem opsx_Keeper_ForceUnlock_pinned : Gen.LockupOps.opsx_Keeper_ForceUnlock =
 theorem opsx_Keeper_unlockMaturedLockInternalLogic_pinned : Gen.LockupOps.opsx_Keeper_unlockMaturedLockInternalLogic =
     ["sdk.AccAddressFromBech32(v2.Owner)", "=(v5,v2.Coins)", "sdk.NewCoins()", "=(v6,sdk.NewCoins())", "range(v5)",
      "strings.HasPrefix(v7.Denom,cltypes.ConcentratedLiquidityTokenPrefix)", "if", "sdk.NewCoins(v7)",
-     "BurnCoins(v0.bk,v1,types.ModuleName,_)", "else", "Add(v6,v7)", "=(v6,_)", "end", "end", "Empty(v6)", "!", "if",
-     "SendCoinsFromModuleToAccount(v0.bk,v1,types.ModuleName,v3,v6)", "end", "deleteLock(v0,v1,v2.ID)",
-     "deleteLockRefs(v0,v1,types.KeyPrefixUnlocking,v2)", "range(v2.Coins)", "accumulationStore(v0,v1,v7.Denom)",
-     "accumulationKey(v2.Duration)", "Decrease(_,_,v7.Amount)", "end",
+     "BurnCoins(v0.bk,v1,types.ModuleName,_)", "else", "Add(v6,v7)", "=(v6,_)", "end", "end", "Empty(v6)",
+     "!(v6.Empty())", "if", "SendCoinsFromModuleToAccount(v0.bk,v1,types.ModuleName,v3,v6)", "end",
+     "deleteLock(v0,v1,v2.ID)", "deleteLockRefs(v0,v1,types.KeyPrefixUnlocking,v2)", "range(v2.Coins)",
+     "accumulationStore(v0,v1,v7.Denom)", "accumulationKey(v2.Duration)", "Decrease(_,_,v7.Amount)", "end",
      "OnTokenUnlocked(v0.hooks,v1,v3,v2.ID,v2.Coins,v2.Duration,v2.EndTime)"] := by decide
 
 /-- B — `Keeper.SetLockRewardReceiverAddress`: `Lockup.setRewardReceiver` -/
@@ -156,7 +156,7 @@ theorem opsx_Keeper_deleteLock_pinned : Gen.LockupOps.opsx_Keeper_deleteLock =
 
 /-- B — `Keeper.SplitLock`: `Lockup.splitLock` -/
 theorem opsx_Keeper_SplitLock_pinned : Gen.LockupOps.opsx_Keeper_SplitLock =
-    ["!", "IsUnlocking(v2)", "&&(_,v2.IsUnlocking())", "if", "end", "Sub(v2.Coins,v3...)", "=(v2.Coins,_)",
+    ["!(v4)", "IsUnlocking(v2)", "&&(_,v2.IsUnlocking())", "if", "end", "Sub(v2.Coins,v3...)", "=(v2.Coins,_)",
      "setLock(v0,v1,v2)", "GetLastLockID(v0,v1)", "+(_,1)", "SetLastLockID(v0,v1,v6)", "OwnerAddress(v2)",
      "types.NewPeriodLock(v6,v2.OwnerAddress(),v2.RewardReceiverAddress,v2.Duration,v2.EndTime,v3)",
      "setLock(v0,v1,v7)", "return(v7,v5)"] := by decide
